@@ -169,6 +169,30 @@ theorem run_unmentioned (c : Int) (es : List Str) (n : Str) (hc : c = 1 ∨ c = 
     simp only [run, List.foldl_cons]
     rw [hcl]; exact ih c hc (fun e he => h e (by simp [he]))
 
+theorem clamp_range (i : Int) : clamp i = 1 ∨ clamp i = -1 ∨ clamp i = 0 := by
+  unfold clamp; omega
+
+/-- The state of `n` depends only on the entries that mention `n`, in their order: every other
+entry can be dropped (or inserted anywhere) without changing it. -/
+theorem run_filter (c : Int) (es : List Str) (n : Str) (hc : c = 1 ∨ c = -1 ∨ c = 0) :
+    run c es n = run c (es.filter (fun e => delta e n != 0)) n := by
+  induction es generalizing c with
+  | nil => rfl
+  | cons e es ih =>
+    by_cases h0 : delta e n = 0
+    · have hcl : clamp (c + delta e n) = c := by
+        rw [h0]; rcases hc with r | r | r <;> (simp [r, clamp] <;> omega)
+      have hf : (e :: es).filter (fun e => delta e n != 0) = es.filter (fun e => delta e n != 0) := by
+        simp [h0]
+      rw [hf, ← ih c hc]
+      simp only [run, List.foldl_cons]; rw [hcl]
+    · have hf : (e :: es).filter (fun e => delta e n != 0) =
+          e :: es.filter (fun e => delta e n != 0) := by
+        simp [h0]
+      rw [hf]
+      simp only [run, List.foldl_cons]
+      exact ih _ (clamp_range _)
+
 example : run 0 ["~b".toList, "b".toList, "b".toList] "b".toList = 1 := by decide
 example : run 0 ["b".toList, "~b".toList, "~b".toList, "b".toList] "b".toList = 0 := by decide
 example : "a".toList ∈ (RList.ofList ["a".toList, "~b".toList]).items := by decide
